@@ -5,6 +5,9 @@ import Hls.Props.C20Text
 #print axioms Hls.C20.setter_push_commute
 #print axioms Hls.C20.setter_pushes_commute
 #print axioms Hls.C20.setters_then_pushes
+#print axioms Hls.C20.segment_number_last_wins
+#print axioms Hls.C20.segment_number_none_resets
+#print axioms Hls.C20.segment_number_some
 #print axioms Hls.C20.push_implicit
 #print axioms Hls.C20.pushes_eq_segments
 #print axioms Hls.C20.parser_is_builder
